@@ -2,6 +2,7 @@ package main
 
 import (
 	"fmt"
+	"go/token"
 	"strings"
 
 	"golang.org/x/tools/go/ssa"
@@ -186,4 +187,131 @@ func ruleC11_6(c *Ctx) {
 	if n == 0 {
 		c.undecided(R, fn, "strict decode of Link / Layout", f.Pos(), "no Decode into a Link or Layout variable found")
 	}
+}
+
+// Further shared rules (round 5 of the seeded changes):
+//   - C02's loader clause (links are filed under the key id found by the file name's short id) rests on the loader's
+//     trimming agreeing with the naming format (R-C20-3);
+//   - C08's summary clause rests on GetSummaryLink (R-C05-3);
+//   - C09's "rules checked against the real directory" rests on the walk discipline of the recorder (R-C13-3);
+//   - C12's round trip of DSSE files rests on the encoder provenance of the envelope payload (R-C11-3);
+//   - C14's "a command that cannot be started is an error" rests on InTotoRun handing every non-empty command to
+//     RunCommand (R-C09-4).
+func init() {
+	share := func(prop, id, doc string, min int, run func(*Ctx), expl string) {
+		if p := registry[prop]; p != nil {
+			p.Rules = append(p.Rules, Rule{ID: id, Doc: doc, Min: min, Run: run})
+			p.Explanation += " " + expl
+		}
+	}
+	share("C02", "R-C20-3", "link naming formats agree with the loader's trimming (shared with C20)", 3, ruleC20_3, "(R-C20-3, shared with C20) the loader cuts the short key id out of a link file name with TrimPrefix(step name + \".\") / TrimSuffix(\".link\"), the inverse of the naming format.")
+	share("C08", "R-C05-3", "summary link endpoints, also for one-step layouts (shared with C05)", 3, ruleC05_3, "(R-C05-3, shared with C05) the summary link takes Materials from Steps[0] and Products from Steps[len-1] for every layout with at least one step.")
+	share("C09", "R-C13-3", "walk discipline of the artifact recorder (shared with C13)", 8, ruleC13_3, "(R-C13-3, shared with C13) the walk that records the inspection's view of the directory returns errors, skips only excluded paths and unfollowed directory symlinks (without cutting the rest of the directory short), and follows symlinks as requested.")
+	share("C12", "R-C11-3", "encoder provenance of the DSSE payload (shared with C11)", 2, ruleC11_3, "(R-C11-3, shared with C11) the DSSE payload bytes are the encoding of the payload that was set.")
+	share("C14", "R-C09-4", "snapshot discipline of InTotoRun; every non-empty command reaches RunCommand (shared with C09)", 6, ruleC09_4, "(R-C09-4, shared with C09) InTotoRun hands every non-empty command to RunCommand and fails on its error.")
+}
+
+// R-C04-7: signatures are decoded by the signature libraries only. The DSSE library accepts standard and URL-safe
+// base64; a decode of a signature in package in_toto fixes one alphabet and refuses envelopes written by other
+// implementations. Who-may-call: no (*base64.Encoding).DecodeString / Decode in package in_toto.
+func init() {
+	if p := registry["C04"]; p != nil {
+		p.Rules = append(p.Rules, Rule{ID: "R-C04-7", Doc: "package in_toto does not base64-decode signatures (or anything else) itself", Min: 1, Run: func(c *Ctx) {
+			const R = "R-C04-7"
+			n := 0
+			for _, f := range c.srcFuncs("in_toto") {
+				for _, call := range allCalls(f) {
+					cn := calleeName(call)
+					if strings.HasPrefix(cn, "(*encoding/base64.Encoding).Decode") || cn == "encoding/base64.NewDecoder" {
+						n++
+						c.bad(R, fname(f), "base64 decoding", call.Pos(), cn+" in package in_toto: envelope fields are base64 in either the standard or the URL-safe alphabet, which only the DSSE library's decoder handles; a decode with one fixed alphabet refuses valid envelopes of other implementations")
+					}
+				}
+			}
+			c.ok(R, "in_toto", "base64 decoding is left to the DSSE library", 0, fmt.Sprintf("%d decode calls in package in_toto", n))
+		}})
+		p.Explanation += " (R-C04-7) package in_toto never base64-decodes envelope fields itself (who-may-call): the DSSE library's decoder accepts both alphabets."
+	}
+}
+
+// R-C17-9: utf8.RuneError is an error only together with width 1: U+FFFD is a valid three-byte character. Every
+// failing continuation that is entered because a decoded rune equals RuneError must also know that the width is 1.
+func init() {
+	if p := registry["C17"]; p != nil {
+		p.Rules = append(p.Rules, Rule{ID: "R-C17-9", Doc: "RuneError counts as malformed only with width 1", Min: 1, Run: ruleC17_9})
+		p.Explanation += " (R-C17-9) in the matcher a decoded rune equal to utf8.RuneError leads to the bad-pattern error only where the decoded width is known to be 1 (U+FFFD itself is a valid character)."
+	}
+}
+
+func ruleC17_9(c *Ctx) {
+	const R = "R-C17-9"
+	n := 0
+	for _, name := range []string{"in_toto.getEsc", "in_toto.matchChunk", "in_toto.match", "in_toto.scanChunk"} {
+		f := c.lookup(name)
+		if f == nil {
+			continue
+		}
+		for _, dec := range callsIn(f, "unicode/utf8.DecodeRuneInString", "unicode/utf8.DecodeRune") {
+			r, w := extractOf(dec.Value(), 0), extractOf(dec.Value(), 1)
+			if r == nil {
+				continue
+			}
+			for _, ref := range *r.Referrers() {
+				bo, ok := ref.(*ssa.BinOp)
+				if !ok || (bo.Op != token.EQL && bo.Op != token.NEQ) {
+					continue
+				}
+				k, isK := constInt(bo.Y)
+				if !isK || k != 0xFFFD {
+					continue
+				}
+				n++
+				// blocks entered with "r == RuneError" known that fail (directly, or by feeding a non-nil error into
+				// the error result's phi): width == 1 must be known there too
+				failsFrom := func(b *ssa.BasicBlock) bool {
+					if c.failing(b) {
+						return true
+					}
+					for _, sb := range b.Succs {
+						for _, in := range sb.Instrs {
+							ph, ok := in.(*ssa.Phi)
+							if !ok {
+								break
+							}
+							if !isErrorType(ph.Type()) {
+								continue
+							}
+							for i, e := range ph.Edges {
+								if sb.Preds[i] == b && !isNilConst(e) && !c.mayBeNilErr(e, b, 0) {
+									return true
+								}
+							}
+						}
+					}
+					return false
+				}
+				for _, b := range f.Blocks {
+					if !c.condAt(bo, bo.Op == token.EQL, b) || !failsFrom(b) {
+						continue
+					}
+					okW := false
+					if w != nil {
+						for _, wr := range *w.Referrers() {
+							wb, ok := wr.(*ssa.BinOp)
+							if !ok {
+								continue
+							}
+							if k1, isK1 := constInt(wb.Y); isK1 && k1 == 1 && ((wb.Op == token.EQL && c.condAt(wb, true, b)) || (wb.Op == token.NEQ && c.condAt(wb, false, b))) {
+								okW = true
+							}
+						}
+					}
+					pos := bo.Pos()
+					c.check(okW, R, fname(f), "RuneError fails only with width 1", pos, "r == utf8.RuneError && n == 1", "a decoded rune equal to utf8.RuneError is treated as malformed without looking at its width: U+FFFD (a valid three-byte character) in a pattern is refused")
+					break
+				}
+			}
+		}
+	}
+	c.check(n >= 1, R, "in_toto", "RuneError comparisons found", 0, fmt.Sprintf("%d", n), "no comparison of a decoded rune with utf8.RuneError in the matcher (malformed UTF-8 in a class is not detected)")
 }
